@@ -182,3 +182,152 @@ def _sde(c):
     c.ensures("len(result._path) == 2 and result._path[0] == child_info.parent_path[0] and result._path[1] == obj.directory.name and result._parent is child_info.parent",
               "placed-under-its-parent")
     c.modifies()
+
+
+# ================================================================================================== C02 / C14: the four sample slots of a partial
+# PartialEntryAdapter._parse: each of the four sample (SMT) slots is resolved on its own - a slot that is unused or whose record is
+# damaged (the reference parser fails with ConstructError / UnicodeDecodeError) is left out, and every OTHER slot, before or behind
+# it, is kept, in slot order.  The reference parser is abstract: it fails on an arbitrary subset of the slots.
+_PE = "smpl_extract.roland.s7xx.partial_entry:"
+_REFC = lambda k: ("obj", "SampleRefContainer", {"slot_no": ("const", k)})
+
+
+@contract("construct:PartialEntryConstruct._parse#abstract", abstract=True, assumed=True,
+          note="the declared partial record (directory entry + parameter block with its four sample-selection sub-records); layout under C02's address obligations")
+def _pe_sub(c):
+    c.param("stream", ("drop",))
+    c.param("context", ("drop",))
+    c.param("path", ("drop",))
+    c.returns(("rec", "PartialEntryContainer", {
+        "directory": ("rec", "DirectoryEntryContainer", {"name": "str"}),
+        "parameter": ("rec", "PartialParamContainer", {"name": "str", "sample_1": _REFC(1), "sample_2": _REFC(2), "sample_3": _REFC(3), "sample_4": _REFC(4)})}))
+    c.modifies()
+
+
+@contract("construct:SampleEntryReferenceAdapter#new", abstract=True, note="constructing the reference adapter (no state)")
+def _sera_new(c):
+    c.param("subcon", ("drop",))
+    c.returns(("obj", "SampleEntryReferenceAdapterToken", {}))
+    c.modifies()
+
+
+@contract("construct:SampleEntryReferenceAdapter._parse#abstract", abstract=True, assumed=True,
+          note="resolving ONE slot: fails (ConstructError for an unused slot / a bad record, UnicodeDecodeError for a damaged name) or yields that slot's reference; "
+               "which slots fail is arbitrary")
+def _sera_parse(c):
+    c.param("stream", ("drop",))
+    c.param("ctx", ("cdict", {"ref_container": ("obj", "SampleRefContainer", {"slot_no": "int"})}))
+    c.param("path", ("drop",))
+    c.returns("int")          # the reference, identified by the number of the slot it was resolved from
+    for exc in ("ConstructError", "UnicodeDecodeError"):
+        c.raises(exc, "uf_bool('slot_fails', ctx['ref_container'].slot_no)")
+    c.ensures("not uf_bool('slot_fails', ctx['ref_container'].slot_no) and result == ctx['ref_container'].slot_no")
+    c.modifies()
+
+
+@contract("smpl_extract.util.constructs:pull_child_info#named", abstract=True, assumed=True, note="context plumbing (pure): parent, path and routines for the named child")
+def _pci2(c):
+    c.param("context", ("drop",))
+    c.param("name", "str")
+    c.returns(("rec", "ChildInfo", {"parent": ("obj", "ParentToken", {}), "next_path": ("clist", ["str"]), "routines": ("cdict", {})}))
+    c.modifies()
+
+
+@contract("smpl_extract.util.constructs:get_common_field_args#abstract", abstract=True, assumed=True, note="copies the parameter fields shared with the element class (pure)")
+def _gcfa(c):
+    c.param("cls", ("drop",))
+    c.param("container", ("drop",))
+    c.returns(("cdict", {}))
+    c.modifies()
+
+
+@contract(_PE + "PartialEntry#new", abstract=True, note="the dataclass constructor: keeps its arguments")
+def _pe_new(c):
+    c.param("directory_name", "str")
+    c.param("parameter_name", "str")
+    c.param("sample_entry_references", ("list", "int"))
+    c.param("_parent", ("drop",))
+    c.param("_path", ("drop",))
+    c.param("_routines", ("drop",))
+    c.returns(("obj", _PE + "PartialEntry", {"directory_name": "str", "sample_entry_references": ("alias", "sample_entry_references")}))
+    c.ensures("result.directory_name == directory_name")
+    c.modifies()
+
+
+@contract(_PE + "PartialEntryAdapter._parse", props=["C02", "C14"])
+def _pea(c):
+    c.self_obj(("self", _PE + "PartialEntryAdapter", {"subcon": ("drop",)}))
+    c.param("stream", ("drop",))
+    c.param("context", ("cdict", {"_": ("cdict", {"_dir_version": "int"})}))
+    c.param("path", ("drop",))
+    c.abstract_calls = {"sc._parse": "construct:PartialEntryConstruct._parse#abstract", "SampleEntryReferenceAdapter": "construct:SampleEntryReferenceAdapter#new",
+                        "parser._parse": "construct:SampleEntryReferenceAdapter._parse#abstract", "pull_child_info": "smpl_extract.util.constructs:pull_child_info#named",
+                        "get_common_field_args": "smpl_extract.util.constructs:get_common_field_args#abstract", "PartialEntry": _PE + "PartialEntry#new"}
+    c.define("bad", ["k"], "uf_bool('slot_fails', k)")
+    good = " + ".join(f"ite(bad({k}), 0, 1)" for k in (1, 2, 3, 4))
+    c.ensures(f"len(result.sample_entry_references) == {good}", "exactly-the-resolvable-slots-are-kept")
+    for k in (1, 2, 3, 4):
+        before = " + ".join([f"ite(bad({j}), 0, 1)" for j in range(1, k)]) or "0"
+        c.ensures(f"implies(not bad({k}), result.sample_entry_references[{before}] == {k})", f"slot-{k}-is-kept-in-its-place-whatever-the-other-slots-are")
+    c.modifies("context")
+
+
+# ================================================================================================== C02: the samples of one patch, once per performance
+# SampleFileListAdapter._decode: the sample files of ONE patch of a performance - every sample its partials refer to, in order of first
+# reference, each once, EXCEPT those already handed out for another patch of the same performance (the performance-wide set
+# `_seen_sample_indices`, which it updates).  So over the patches of a performance every referenced sample is exported exactly once.
+# Proved for a patch of two partials with 2 + 1 sample entries whose indices are ANY integers (equal or not), and a set that already
+# holds one arbitrary index; the file adapter is abstract (a file is identified by the index of its sample entry).
+_SFL = "smpl_extract.roland.s7xx.sample_file:"
+_SENTRY = ("obj", "SampleEntryToken", {"index": "int"})
+
+
+@contract("construct:SampleFileAdapter#new", abstract=True, note="constructing the file adapter (no state)")
+def _sfa_new(c):
+    c.param("subcon", ("drop",))
+    c.returns(("obj", "SampleFileAdapterToken", {}))
+    c.modifies()
+
+
+@contract(_SFL + "SampleFileAdapter._decode#tag", abstract=True, note="the file of one sample entry (SampleEntryAdapter / SampleFile.to_generalized are under contract above); identified here by the entry's index")
+def _sfa_decode(c):
+    c.param("sample_entry", _SENTRY)
+    c.param("context", ("drop",))
+    c.param("path", ("drop",))
+    c.returns("int")
+    c.ensures("result == sample_entry.index")
+    c.modifies()
+
+
+def _mk_sfl(with_set):
+    tag = "in-a-performance" if with_set else "no-performance-context"
+
+    @contract(_SFL + f"SampleFileListAdapter._decode[{tag}]", source_key=_SFL + "SampleFileListAdapter._decode", props=["C02", "C05"], proof_only=True)
+    def _sfl(c):
+        c.self_obj(("self", _SFL + "SampleFileListAdapter", {"subcon": ("drop",)}))
+        c.param("obj", ("obj", "PatchEntryToken", {"ghost_seen": "int", "partial_entries": ("clist", [
+            ("obj", "PartialEntryToken", {"sample_entries": ("clist", [_SENTRY, _SENTRY])}), ("obj", "PartialEntryToken", {"sample_entries": ("clist", [_SENTRY])})])}))
+        c.param("context", ("cdict", {"_": ("cdict", {"_seen_sample_indices": ("cset", ["int"])})}) if with_set else ("cdict", {}))
+        c.param("path", ("drop",))
+        c.abstract_calls = {"SampleFileAdapter": "construct:SampleFileAdapter#new", "sc._decode": _SFL + "SampleFileAdapter._decode#tag"}
+        c.define("a", [], "obj.partial_entries[0].sample_entries[0].index")
+        c.define("b", [], "obj.partial_entries[0].sample_entries[1].index")
+        c.define("d", [], "obj.partial_entries[1].sample_entries[0].index")
+        c.define("s", [], "obj.ghost_seen")
+        c.define("new", ["x"], "x != s()" if with_set else "True")
+        if with_set:
+            c.requires("obj.ghost_seen in context['_']['_seen_sample_indices']", "the-one-index-already-handed-out-is-s")
+            c.ensures("forall(0, len(result), lambda i: result[i] != s())", "no-file-again-for-a-sample-another-patch-already-gave")
+            c.ensures("a() in context['_']['_seen_sample_indices'] and b() in context['_']['_seen_sample_indices'] and d() in context['_']['_seen_sample_indices'] "
+                      "and s() in context['_']['_seen_sample_indices']", "the-performance-wide-set-now-holds-every-sample-of-this-patch-too")
+        c.ensures("forall(0, len(result), lambda i: result[i] == a() or result[i] == b() or result[i] == d())", "only-samples-this-patch-refers-to")
+        c.ensures("forall(0, len(result), lambda i: forall(0, i, lambda j: result[i] != result[j]))", "no-sample-twice")
+        for nm in ("a", "b", "d"):
+            c.ensures(f"implies(new({nm}()), exists(0, len(result), lambda i: result[i] == {nm}()))", f"every-new-sample-gets-its-file.{nm}")
+        c.ensures("implies(new(a()), len(result) >= 1 and result[0] == a())", "in-order-of-first-reference")
+        c.modifies(*(["context"] if with_set else []))
+    return _sfl
+
+
+_mk_sfl(True)
+_mk_sfl(False)
